@@ -317,6 +317,7 @@ def check_function(R, func, subject, mode='return', emit=(),
     stale = []
     signed_id = []
     bad_store = []
+    raw_decision = []
     stores = 0
     memo_params = set(func.params) - {subject, 'self'}
     for path in plist:
@@ -334,6 +335,20 @@ def check_function(R, func, subject, mode='return', emit=(),
                                 isinstance(n2.left, ast.Name) and \
                                 flow.uses_unstripped(n2.left):
                             signed_id.append((path, n2))
+                if mode == 'return' and not flow.is_sign_test(it[1]):
+                    for n2 in ast.walk(it[1]):
+                        if not (isinstance(n2, ast.Compare) and len(
+                                n2.ops) == 1 and isinstance(
+                                    n2.ops[0], (ast.Eq, ast.NotEq, ast.Is,
+                                                ast.IsNot))):
+                            continue
+                        a, b = n2.left, n2.comparators[0]
+                        for x, y in ((a, b), (b, a)):
+                            if isinstance(x, ast.Name) and \
+                                    x.id in flow.tainted and \
+                                    x.id not in flow.dep and \
+                                    au.const_int(y) in (1, -1):
+                                raw_decision.append((path, n2, x.id))
                 flow.enter_test(it[1], it[3])
             elif kind == 'loop':
                 node = it[1]
@@ -414,6 +429,16 @@ def check_function(R, func, subject, mode='return', emit=(),
             'only updated when a reference is complemented: after one '
             'complemented reference every later one is marked too',
             unit=func.unit.rel, line=node.lineno, path=pa.describe(path))
+    if raw_decision:
+        path, node, name = raw_decision[0]
+        R.violation(
+            rule, 'decision-before-sign', func.qualname, name,
+            f'`{au.short(node)}` compares the stored successor `{name}` '
+            f'of abs({subject}) with a terminal before the complement of '
+            f'`{subject}` has been pushed into it: for a complemented '
+            f'`{subject}` the successor is the other terminal, so the '
+            'shortcut fires for the wrong constant', unit=func.unit.rel,
+            line=node.lineno, path=pa.describe(path))
     if signed_id:
         path, node = signed_id[0]
         R.violation(
@@ -654,6 +679,27 @@ def r_sign(P, R):
                 f'{q} no longer has the subject parameter `{subj}`')
         if check_function(R, f, subj) > 0:
             n += 1
+    # further subjects of the same functions: any other parameter whose
+    # successors are read (not only its level) under abs()
+    listed = set(PARAM_INSTANCES.get(pid, []))
+    for q in sorted({q for q, _ in listed}):
+        f = P.func(q)
+        for s in au.walk_no_defs(f.node):
+            if not (isinstance(s, ast.Assign) and isinstance(
+                    s.targets[0], ast.Tuple) and len(
+                        s.targets[0].elts) == 3 and isinstance(
+                            s.value, ast.Subscript)):
+                continue
+            ch = au.chain(s.value.value)
+            subj = au.is_abs_of(s.value.slice)
+            if not ch or ch[-1] != '_succ' or subj is None or \
+                    subj not in f.params or (q, subj) in listed:
+                continue
+            named = [x for x in s.targets[0].elts[1:]
+                     if not (isinstance(x, ast.Name) and x.id == '_')]
+            if named:
+                listed.add((q, subj))
+                check_function(R, f, subj)
     for q, selector, emit, *opt in LOOP_INSTANCES.get(pid, []):
         f = P.func(q)
         found = selector(f.node)
